@@ -15,6 +15,12 @@ use std::time::Instant;
 
 pub const VERIF_ROOT: &str = "/verif";
 
+/// Where evidence and replay files go (development aid: `VERIF_OUT` redirects them, e.g. when a
+/// second copy of the harness is run against a scratch worktree).
+pub fn out_root() -> String {
+    std::env::var("VERIF_OUT").unwrap_or_else(|_| VERIF_ROOT.to_string())
+}
+
 /// Incremented after every evaluated case; a process-level watchdog turns a hang (a client
 /// operation that never returns to the executor) into exit status 2, never into a violation.
 pub static HEARTBEAT: std::sync::atomic::AtomicU64 = std::sync::atomic::AtomicU64::new(0);
@@ -367,7 +373,7 @@ pub fn finish(ctx: &Ctx, agg: Agg, rep: Report) -> i32 {
         nviol = f.violations.len();
         let mut h = DefaultHasher::new();
         f.input.to_string().hash(&mut h);
-        let dir = format!("{VERIF_ROOT}/replays/{}", ctx.prop);
+        let dir = format!("{}/replays/{}", out_root(), ctx.prop);
         let _ = std::fs::create_dir_all(&dir);
         let sig = f.violations.first().map(|v| v.sig.clone()).unwrap_or_default();
         let slug: String = sig.chars().map(|c| if c.is_ascii_alphanumeric() { c } else { '_' }).take(60).collect();
@@ -405,7 +411,7 @@ pub fn finish(ctx: &Ctx, agg: Agg, rep: Report) -> i32 {
         "wall_s": wall,
         "violations": nviol,
     });
-    let dir = format!("{VERIF_ROOT}/evidence");
+    let dir = format!("{}/evidence", out_root());
     let _ = std::fs::create_dir_all(&dir);
     std::fs::write(format!("{dir}/{}.json", ctx.prop), serde_json::to_string_pretty(&ev).unwrap()).expect("write evidence");
     println!(
